@@ -25,6 +25,20 @@ theorem missingFrom_nil_iff (kind owner : String) (names within : List String) :
   · intro h n hn; simpa using h n hn
   · intro h n hn; simpa using h n hn
 
+/-- what a response may map when no view is fixed on the result: attributes of the result that every view selects -/
+theorem respUsable_all_views (m : Method) (h : m.resultView = none) (a : String) (ha : a ∈ respUsable m) :
+    a ∈ m.result ∧ ∀ va ∈ m.viewAttrs, a ∈ va.2 := by
+  unfold respUsable at ha
+  rw [h] at ha
+  simp only [List.mem_filter, List.all_eq_true] at ha
+  exact ⟨ha.1, fun va hva => by simpa using ha.2 va hva⟩
+
+/-- … and with a view fixed on the result: the attributes of that view -/
+theorem respUsable_fixed_view (m : Method) (v : String) (attrs : List String) (h : m.resultView = some v)
+    (hl : m.viewAttrs.lookup v = some attrs) : respUsable m = attrs := by
+  unfold respUsable
+  rw [h]; simp [hl]
+
 /-- **No dangling reference is accepted**: a closed design resolves every name it uses. -/
 theorem accepted_closed (d : Design) (h : closed d = true) :
     (∀ e ∈ d.httpErrors, e ∈ d.errors) ∧ (∀ x ∈ d.apiSchemes, x ∈ d.schemes) ∧
@@ -33,7 +47,7 @@ theorem accepted_closed (d : Design) (h : closed d = true) :
       (∀ e ∈ s.httpErrors, e ∈ s.errors ++ d.errors) ∧ (∀ x ∈ s.schemes, x ∈ d.schemes) ∧
       ∀ m ∈ s.methods,
         (∀ a ∈ m.params ++ m.headers ++ m.cookies ++ m.body, a ∈ m.payload) ∧
-        (∀ a ∈ m.respAttrs, a ∈ m.result) ∧
+        (∀ a ∈ m.respAttrs, a ∈ respUsable m) ∧
         (∀ e ∈ m.httpErrors, e ∈ m.errors ++ s.errors ++ d.errors) ∧
         (∀ x ∈ m.schemes, x ∈ d.schemes) ∧
         (∀ v, m.resultView = some v → v ∈ m.views) := by
@@ -100,12 +114,16 @@ theorem dsl_functions_guarded : dslFuncs.all (fun f => guarded f || silentWhenMi
 theorem dsl_surface_seen : 100 ≤ dslFuncs.length := by decide
 
 /-! ### Non-vacuity -/
-def m0 : Method := ⟨"show", ["id", "token"], ["name"], ["not_found"], ["id"], ["token"], [], [], ["name"], ["not_found", "busy"], ["jwt"], some "tiny", ["default", "tiny"]⟩
+def m0 : Method := ⟨"show", ["id", "token"], ["name"], ["not_found"], ["id"], ["token"], [], [], ["name"], ["not_found", "busy"], ["jwt"], some "tiny", ["default", "tiny"],
+  [("default", ["name", "note"]), ("tiny", ["name"])]⟩
 def d0 : Design := ⟨["jwt"], ["api_down"], ["api_down"], [], [⟨"svc", ["busy"], ["busy"], [], [m0]⟩], [⟨"Item.owner", "tiny", ["default", "tiny"]⟩]⟩
 example : closed d0 = true := by decide
 example : dangling { d0 with schemes := [] } = [⟨"scheme", "svc.show", "jwt"⟩] := by decide
 example : dangling { d0 with attrViews := [⟨"Item.owner", "tiny", ["default", "tiny"]⟩, ⟨"Item.other", "nope", ["default", "tiny"]⟩] }
     = [⟨"attribute-view", "Item.other", "nope"⟩] := by decide
+/-- an attribute the type has but not every view selects cannot be mapped by a response (no view fixed) -/
+example : dangling { d0 with services := [⟨"svc", ["busy"], ["busy"], [], [{ m0 with resultView := none, result := ["name", "note"], respAttrs := ["note"] }]⟩] }
+    = [⟨"response-attribute", "svc.show", "note"⟩] := by decide
 example : dangling { d0 with services := [⟨"svc", [], [], [], [{ m0 with headers := ["zz"] }]⟩] }
     = [⟨"header", "svc.show", "zz"⟩, ⟨"error-response", "svc.show", "busy"⟩] := by decide
 
